@@ -190,6 +190,27 @@ class KindInfer:
             return [], list(self.eval_multi(fn, st.value, env, selfkind, depth))
         if isinstance(st, ast.Raise):
             return [], []
+        if isinstance(st, ast.For) and not st.orelse and isinstance(st.target, ast.Name):
+            # a list filled with one element per member of a collection: `for s in X.subshapes: out.append(f(s))`
+            it = st.iter
+            while isinstance(it, ast.Call) and isinstance(it.func, ast.Name) and it.func.id in ("tuple", "list", "reversed", "iter") \
+                    and len(it.args) == 1:
+                it = it.args[0]
+            over_sub = isinstance(it, ast.Attribute) and it.attr == "subshapes"
+            env3 = dict(env)
+            env3[st.target.id] = frozenset("?")
+            for b in st.body:
+                if isinstance(b, (ast.Assert, ast.Pass)):
+                    continue
+                if isinstance(b, ast.Expr) and isinstance(b.value, ast.Call) and isinstance(b.value.func, ast.Attribute) \
+                        and b.value.func.attr == "append" and isinstance(b.value.func.value, ast.Name) and len(b.value.args) == 1:
+                    name = b.value.func.value.id
+                    fresh = env.get(name) == ("tuple", ()) and sum(
+                        1 for x in ast.walk(st) if isinstance(x, ast.Name) and x.id == name) == 1
+                    env3[name] = frozenset("?sub") if (over_sub and fresh) else frozenset("?")
+                    continue
+                raise Undecided("statement " + U(st)[:50])
+            return [env3], []
         if isinstance(st, ast.Expr):
             return [e for e, _ in self.eval_multi(fn, st.value, env, selfkind, depth)], []
         raise Undecided("statement " + U(st)[:50])
@@ -498,8 +519,9 @@ def r06_3(ctx):
     for kind, must_raise in (("closed-shared", False), ("equal-not-shared", True), ("gap-middle", True),
                              ("gap-last-internal", True), ("non-curve", True)):
         S = Obj("J")
+        given = chain(kind)
         try:
-            Runner(ctx, set(), setter_hook, asserts=True).call_fn(fs, [S, chain(kind)])
+            Runner(ctx, set(), setter_hook, asserts=True).call_fn(fs, [S, given])
             raised = False
         except Raised:
             raised = True
@@ -513,6 +535,14 @@ def r06_3(ctx):
             stored = [v for k, v in S.__dict__.items() if k.endswith("segments")]
             if not must_raise and (not stored or len(stored[0]) != 3):
                 out.bad(fs.qname, "an accepted chain is not stored completely", where=fs.where())
+            elif not must_raise and any(st is g for st in stored[0] for g in given):
+                out.bad(fs.qname, "the curve keeps the caller's segment objects: two curves built from one list of segments "
+                                  "share them, and an in-place change of one curve reaches the other", where=fs.where())
+            elif not must_raise and ([[(p.x, p.y) for p in st.ctrlpoints] for st in stored[0]] !=
+                                     [[(p.x, p.y) for p in g.ctrlpoints] for g in given]
+                                     or not all(stored[0][i].ctrlpoints[-1] is stored[0][(i + 1) % 3].ctrlpoints[0] for i in range(3))):
+                out.bad(fs.qname, "the stored segments do not run through the given control points in the given order with shared junction points",
+                        where=fs.where())
             else:
                 out.ok(fs.qname, f"{kind}: {'rejected' if must_raise else 'accepted and stored'}", where=fs.where())
     ff = ctx.fn("jordancurve.JordanCurve.from_segments")
@@ -702,4 +732,12 @@ def r06_7(ctx):
     return o
 
 
-RULES = [r06_1, r06_2, r06_3, r06_4, r06_5, r06_6, r06_7]
+def r06_8(ctx):
+    from rules import C10
+    o = C10.r10_1(ctx)
+    o.rule = "R06.8"
+    o.text = ("the containment short-cuts that decide the kind of a result never read a box or an orientation cached before the shape was transformed in place (same analysis as R10.1)")
+    return o
+
+
+RULES = [r06_1, r06_2, r06_3, r06_4, r06_5, r06_6, r06_7, r06_8]
